@@ -48,6 +48,14 @@ func cropProjects(c *core.Ctx, n int) []*gen.Project {
 				}
 			}
 		}
+		// arm "highLat": a winter crop stands emerged through the mid-winter days of a high latitude on which the sun rises
+		// but stays low (no effective day length for photosynthesis), in a mild winter (growth is not switched off by frost)
+		highLat := gen.IsWinterCrop(crop) && stress != 2
+		if highLat {
+			p.Cfg.Lat100 = 5900 + r.Intn(650)
+			p.Cfg.TAnnual10 = 105 + r.Intn(30)
+			p.Weather.Days = gen.SynthWeather(r, p.Weather.First, p.Weather.First+len(p.Weather.Days)-1, float64(p.Cfg.TAnnual10)/10, o.HeavyRain, false, p.Weather.HasVerd, p.Cfg.ETpot == 5)
+		}
 		p.Cfg.CO2Method = 1 + i%3
 		if i%2 == 1 || (early && i%4 != 0) {
 			p.Cfg.CropParamFmt = "yml"
@@ -66,7 +74,7 @@ func cropProjects(c *core.Ctx, n int) []*gen.Project {
 				p.Fert = append(p.Fert, gen.FertEv{Date: e.Sow + 10, Kg: 80, Type: "KAS"})
 			}
 		}
-		p.Arms = []string{fmt.Sprintf("crop=%s params=%s stress=%d co2=%d nsupply=%d rootLimitIsProfile=%v earlyHarvest=%v", crop, p.Cfg.CropParamFmt, stress, p.Cfg.CO2Method, nsupply, rootArm, early)}
+		p.Arms = []string{fmt.Sprintf("crop=%s params=%s stress=%d co2=%d nsupply=%d rootLimitIsProfile=%v earlyHarvest=%v highLat=%v", crop, p.Cfg.CropParamFmt, stress, p.Cfg.CO2Method, nsupply, rootArm, early, highLat)}
 		ps = append(ps, p)
 	}
 	return ps
